@@ -16,6 +16,7 @@ import (
 	link_solicit_controller "github.com/aperturerobotics/bifrost/link/solicit/controller"
 	"github.com/aperturerobotics/bifrost/peer"
 	"github.com/aperturerobotics/bifrost/protocol"
+	"github.com/aperturerobotics/bifrost/stream"
 	"github.com/aperturerobotics/bifrost/util/verifhook"
 	"github.com/aperturerobotics/controllerbus/directive"
 	"github.com/sirupsen/logrus"
@@ -51,12 +52,16 @@ type c31Case struct {
 	Sequential bool `json:"sequential"`
 	// AcceptDuringClose: while the underlying stream is being closed by the solicitation another caller accepts
 	AcceptDuringClose bool `json:"accept_during_close"`
+	// AcceptDuringLookup: while the solicitation, closing, asks the mounted stream for its stream (a call into the link
+	// implementation, which can take a while), another caller accepts
+	AcceptDuringLookup bool `json:"accept_during_lookup,omitempty"`
 	// CloseErr: the underlying stream's Close reports an error (reset by the peer, link gone)
 	CloseErr bool `json:"close_err,omitempty"`
 }
 
 func genC31(t *rapid.T) c31Case {
 	c := c31Case{CloseErr: rapid.IntRange(0, 3).Draw(t, "closeerr") == 0, InterleaveAccept: rapid.Bool().Draw(t, "ila"), Interleave: rapid.IntRange(0, 2).Draw(t, "il") == 0, Sequential: rapid.Bool().Draw(t, "seq"), AcceptDuringClose: rapid.IntRange(0, 2).Draw(t, "adc") == 0}
+	c.AcceptDuringLookup = rapid.IntRange(0, 2).Draw(t, "adl") == 0
 	g := rapid.IntRange(1, 4).Draw(t, "g")
 	for i := 0; i < g; i++ {
 		c.Seqs = append(c.Seqs, rapid.StringMatching(`[aci]{1,4}`).Draw(t, "seq"))
@@ -66,6 +71,19 @@ func genC31(t *rapid.T) c31Case {
 
 var hookMu sync.Mutex
 
+// slowMountedStream is a mounted stream whose GetStream calls back first (a link implementation that takes its time).
+type slowMountedStream struct {
+	*fakes.MountedStream
+	onGetStream func()
+}
+
+func (m *slowMountedStream) GetStream() stream.Stream {
+	if f := m.onGetStream; f != nil {
+		f()
+	}
+	return m.MountedStream.GetStream()
+}
+
 func checkC31(c c31Case) (o vstat.Outcome) {
 	a, b := fakes.NewStreamPair()
 	defer b.Close()
@@ -73,7 +91,7 @@ func checkC31(c c31Case) (o vstat.Outcome) {
 		a.CloseErr = errors.New("verif: stream reset by peer")
 		o.Classes = append(o.Classes, "underlying-close-reports-an-error")
 	}
-	ms := &fakes.MountedStream{Strm: a, Proto: "verif/p", Peer: gen.PeerID(1)}
+	ms := &slowMountedStream{MountedStream: &fakes.MountedStream{Strm: a, Proto: "verif/p", Peer: gen.PeerID(1)}}
 	sms := link_solicit.NewSolicitMountedStream(ms)
 	cl, ok := sms.(closer)
 	if !ok {
@@ -136,6 +154,22 @@ func checkC31(c c31Case) (o vstat.Outcome) {
 		}
 		o.Classes = append(o.Classes, "accept-while-stream-is-closing")
 	}
+	if c.AcceptDuringLookup {
+		var once atomic.Bool
+		ms.onGetStream = func() {
+			if !once.CompareAndSwap(false, true) {
+				return
+			}
+			done := make(chan struct{})
+			stragglers.Add(1)
+			go func() { defer stragglers.Done(); doOp('a'); close(done) }()
+			select {
+			case <-done:
+			case <-time.After(20 * time.Millisecond):
+			}
+		}
+		o.Classes = append(o.Classes, "accept-while-stream-is-looked-up")
+	}
 	if c.Interleave {
 		hookMu.Lock()
 		defer hookMu.Unlock()
@@ -188,7 +222,7 @@ func checkC31(c c31Case) (o vstat.Outcome) {
 			hasC = hasC || s[i] == 'c'
 		}
 	}
-	o.NonTrivial = (hasA && (hasC || c.Interleave)) && (concurrent || c.Interleave || len(c.Seqs) > 1) || (c.AcceptDuringClose && hasC)
+	o.NonTrivial = (hasA && (hasC || c.Interleave)) && (concurrent || c.Interleave || len(c.Seqs) > 1) || ((c.AcceptDuringClose || c.AcceptDuringLookup) && hasC)
 	switch {
 	case accepted > 1:
 		o.V = vstat.Viol("two-owners", "the stream was handed to %d accepters (%v)", accepted, order)
